@@ -63,7 +63,7 @@ fn check_images(io: &IoInterface, before: &[[u8; N]; 3], area: usize, byte: usiz
 // @verif fns=io::IoInterface::{write,read,resize,inputs_mut,outputs_mut,memory_mut}, io::ensure_len
 // @verif bound=three images of 12 symbolic bytes; area symbolic; byte in 0..12, bit in 0..=7 (what IoAddress::parse guarantees); value symbolic
 // @verif stub=std::hash::RandomState::new -> fixed keys (hierarchical map stays empty)
-// @verif assume=bit <= 7 (guaranteed by IoAddress::parse, checked separately by c07_parse_*)
+// @verif assume=bit <= 7 (what IoAddress::parse guarantees - `if bit > 7 { return Err(..) }` at io.rs:176, established by reading: a harness over parse on strings of <= 4 bytes runs out of memory)
 #[kani::proof]
 #[kani::unwind(14)]
 #[kani::stub(std::hash::RandomState::new, fixed_random_state)]
